@@ -86,6 +86,8 @@ def run(case, j):
     j.tag(f"data:{case['kind']}", f"reg:{reg['kind']}", f"mixing:{a}", "y1d" if np.ndim(Y) == 1 else "y2d")
     if not pc.x_guard(X):
         raise Skip("XtX-eigenvalue-near-tol-cut")
+    if not pc.reg_guard(reg, X):
+        raise Skip("regression-ill-conditioned(eps x cond above the tolerances)")
     Yh, W = pc.oracle_yhat(reg, X, Y)
     Kt = pc.ktilde(a, X, Yh)
     w = pc.spectrum(Kt)
@@ -151,12 +153,15 @@ def run(case, j):
             lab = f"{names[i].split('/')[1]}~{names[k2].split('/')[1]}" + ("" if names[i].split("/")[0] == names[k2].split("/")[0] else " across spaces")
             j.close(f"latent coordinates equal up to sign [{lab}]", A[0], pc.align(A[0], B[0]), tol * sT * 10)
             j.close(f"predictions equal [{lab}]", A[1], B[1], tol * sY * 10)
-            j.close(f"reconstructions of X equal [{lab}]", A[2], B[2], tol * sX * 10)
+            j.close(f"reconstructions of X equal [{lab}]", A[2], B[2], tol * sX * (30 if ("arpack" in lab or "randomized" in lab) else 10))
             sgn = np.sign((np.asarray(A[0]) * np.asarray(B[0])).sum(axis=0))
             sgn[sgn == 0] = 1.0
             sZ = max(float(np.abs(A[3]).max()), float(np.abs(B[3]).max()), sT)
-            j.close(f"latent coordinates of NEW samples equal up to sign [{lab}]", A[3], B[3] * sgn, tol * sZ * 10)
-            j.close(f"predictions for NEW samples equal [{lab}]", A[4], B[4], tol * max(float(np.abs(A[4]).max()), sY) * 10)
+            # new samples have components along low-variance directions, which the projector scales by 1/sqrt(lambda): an
+            # iterative solver's eigenvector error shows there first
+            tz = tol * (10 if ("arpack" in lab or "randomized" in lab) else 1)
+            j.close(f"latent coordinates of NEW samples equal up to sign [{lab}]", A[3], B[3] * sgn, tz * sZ * 10)
+            j.close(f"predictions for NEW samples equal [{lab}]", A[4], B[4], tz * max(float(np.abs(A[4]).max()), sY) * 10)
             j.note("new_sample_pairs_compared")
             j.note("route_pairs_compared")
     if case.get("many_rows"):
